@@ -1,5 +1,6 @@
 /* C05: h_list */
 #include "harness/C05/common.h"
+#include "x_json_rd.c"      /* eof / where / size / go: real bodies */
 #include "x_json_list.c"
 
 void h_list(void) { StringReader* r; JVal* ret; bool in_de; IN_COMMON; g_j.de = in_de; JSON_parse_list(r, in_de, ret); VERIF_REACH(); }
